@@ -126,6 +126,7 @@ def oracle_c03(c, r):
     done_seen = False
     stage2 = False
     stored = set()
+    last_refusal = None
     for t, ((idx, _), res) in enumerate(zip(c.blocks, r["results"])):
         call = r["calls"][t] if t < len(r["calls"]) else []
         if done_seen:
@@ -134,6 +135,9 @@ def oracle_c03(c, r):
             if call:
                 out.append("call %d after Done performs storage operations %s" % (t, call[:3]))
             continue
+        if res == "P" and c.fail is None:
+            out.append("call %d (index %d) panics in a fault-free run%s" % (t, idx, " - after the refusal of call %d" % last_refusal if last_refusal is not None else ""))
+            return out
         if res == "E" or res == "P":
             return out          # fault cases are C18's
         missing = c.n - len(stored)
@@ -141,6 +145,7 @@ def oracle_c03(c, r):
         if (res == "T") != should_refuse:
             out.append("call %d (index %d, %d missing, capacity %d): result %s but refusal %s expected" % (t, idx, missing, c.cap, res, should_refuse))
         if res == "T":
+            last_refusal = t
             if call:
                 out.append("refused call %d performs storage operations" % t)
             continue
